@@ -11,6 +11,7 @@ import (
 	"fmt"
 	"io"
 	"strings"
+	"sync"
 	"sync/atomic"
 	"time"
 	"unicode"
@@ -46,6 +47,8 @@ type DB struct {
 	pending  []Change
 	inTx     bool
 	snapshot map[string][][]driver.Value
+	id       string
+	handles  []*sql.DB
 }
 
 func New() *DB { return &DB{Tables: map[string]*Table{}} }
@@ -61,17 +64,37 @@ func (d *DB) AddTable(t *sqlgen.Table) *Table {
 	return ft
 }
 
-var dbSeq int64
+var (
+	dbSeq     int64
+	instMu    sync.Mutex
+	instances = map[string]*DB{}
+)
 
-// Open returns a *sql.DB served by d.
+func init() { sql.Register("fakesql", &drv{}) }
+
+// Open returns a *sql.DB served by d. Call Close when the execution is over.
 func (d *DB) Open() *sql.DB {
-	name := fmt.Sprintf("fakesql-%d", atomic.AddInt64(&dbSeq, 1))
-	sql.Register(name, &drv{d})
-	db, err := sql.Open(name, "")
+	d.id = fmt.Sprint(atomic.AddInt64(&dbSeq, 1))
+	instMu.Lock()
+	instances[d.id] = d
+	instMu.Unlock()
+	db, err := sql.Open("fakesql", d.id)
 	if err != nil {
 		panic(err)
 	}
+	d.handles = append(d.handles, db)
 	return db
+}
+
+// Close releases the instance and its sql.DB handles (and their background goroutines).
+func (d *DB) Close() {
+	instMu.Lock()
+	delete(instances, d.id)
+	instMu.Unlock()
+	for _, h := range d.handles {
+		h.Close()
+	}
+	d.handles = nil
 }
 
 func (t *Table) col(name string) int {
@@ -733,9 +756,17 @@ func (r *rows) Next(dest []driver.Value) error {
 
 // ---- driver plumbing ----
 
-type drv struct{ d *DB }
+type drv struct{}
 
-func (x *drv) Open(string) (driver.Conn, error) { return &conn{x.d}, nil }
+func (x *drv) Open(dsn string) (driver.Conn, error) {
+	instMu.Lock()
+	d := instances[dsn]
+	instMu.Unlock()
+	if d == nil {
+		return nil, errors.New("fakesql: instance closed")
+	}
+	return &conn{d}, nil
+}
 
 type conn struct{ d *DB }
 
